@@ -31,8 +31,8 @@ def menu(w):
 
 def items(tier):
     out, n = [], 0
-    for kind in ("mod", "ext", "prim"):
-        for w in ((1, 2) if kind != "prim" else (1,)):
+    for kind in ("mod", "ext", "prim", "modpair"):
+        for w in ((1, 2) if kind in ("mod", "ext") else (1,)):
             m = menu(w)
             for ia, ib in itertools.product(range(len(m)), repeat=2):
                 out.append((kind, w, ia, ib, n))
@@ -67,6 +67,13 @@ def design(desc):
     decls.append(("inst", "solo", ("mod", "Solo"), sc))
     if kind == "mod":
         inner, en, ed = leaf_module("Inner", [("a", w), ("b", w)], tag=1)
+        mods["Inner"] = inner
+        exts[en] = ed
+        target, pa, pb = ("mod", "Inner"), "a", "b"
+    elif kind == "modpair":
+        # the paired module itself contains a Pair, and is reached through this Pair only
+        inner, en, ed = leaf_module("Inner", [("a", 1), ("b", 1)], tag=1)
+        inner["decls"].append(("pair", "pp", ("prim", "R", {"r": 7}), [("p", ("anon", [("p", sig("a")), ("n", sig("b"))])), ("n", sig("b"))]))
         mods["Inner"] = inner
         exts[en] = ed
         target, pa, pb = ("mod", "Inner"), "a", "b"
